@@ -88,6 +88,20 @@ func genValue(g *Rng, long bool) []byte {
 			frag := g.Pick([]int{0, 1, 2})
 			copy(v, []string{"sub", "Sub", "id"}[frag])
 		}
+		switch g.Intn(8) {
+		case 0: // octets that are not UTF-8 (GBK text, binary ids)
+			for i := range v {
+				if g.Bool() {
+					v[i] = byte(0x80 + g.Intn(0x80))
+				}
+			}
+		case 1: // runes whose case mappings change their UTF-8 width, and other multi-octet runes
+			v = append(v[:len(v)/2], []byte([]string{"\u212a", "\u0130", "\u1e9e", "\u0416", "\u77ed\u4fe1", "\u00df"}[g.Intn(6)])...)
+		case 2: // the key words in another case: keys are matched exactly, so these are ordinary value text
+			if n > 4 {
+				v = append(v[:1], []byte([]string{"ID:", "STAT:", "ERR:", "TEXT:", "Id:", "SUB:"}[g.Intn(6)])...)
+			}
+		}
 		if tokenFree(v) {
 			return v
 		}
@@ -125,7 +139,7 @@ func allPerms(n int) [][]int {
 }
 
 func runC18(res *Result, d *Driver, g *Rng, tier string) {
-	res.Rule = "receipts built from the eight standard keys in every order (all 8! = 40320 for three value sets; quick: all orders of one value set sampled 1/7 plus 2000 random) and every subset (2^8), values = space-free strings without key tokens incl. values longer than the field width and near-miss fragments; SMPP and SMGP with both SMGP spellings; SMGP id = any ten octets (spaces, NULs, 0xff) not spelling a key token; non-trivial = distinct receipt text"
+	res.Rule = "receipts built from the eight standard keys in every order (all 8! = 40320 for three value sets; quick: all orders of one value set sampled 1/7 plus 2000 random) and every subset (2^8), values = space-free strings without key tokens incl. values longer than the field width, near-miss fragments, non-UTF-8 octets, runes whose case mapping changes their UTF-8 width, key words in another case; SMPP and SMGP with both SMGP spellings; SMGP id = any ten octets (spaces, NULs, 0xff) not spelling a key token; non-trivial = distinct receipt text"
 	thorough := tier == "thorough"
 	var ops, goOut []string
 	check := func(kind string, order []int, present uint, vals [][]byte, alt bool, viaModel bool) {
